@@ -111,6 +111,9 @@ pub enum Op
     /// `ReactCommands::insert` of a component with the given value.
     Insert(Comp, EntId, u8),
     Mutate(Comp, EntId, How),
+    /// Body-time access to component A through the issuing system's own `ReactiveMut` param: the accessor is called
+    /// while the body runs (the value changes then), its trigger command is applied later with the body's commands.
+    MutateNow(EntId, How),
     /// Reactive resource access.
     ResMutate(How),
     RemoveComp(Comp, EntId),
@@ -152,7 +155,7 @@ impl Op
     {
         match *self
         {
-            Op::EntityEvent(_, e) | Op::Insert(_, e, _) | Op::Mutate(_, e, _) | Op::RemoveComp(_, e) |
+            Op::EntityEvent(_, e) | Op::Insert(_, e, _) | Op::Mutate(_, e, _) | Op::MutateNow(e, _) | Op::RemoveComp(_, e) |
             Op::Clear(e) | Op::Despawn(e) | Op::DespawnRecursive(e) | Op::DropSignal(e) => Some(e),
             _ => None,
         }
@@ -304,8 +307,10 @@ pub struct Issued
     pub new_actor: Option<ActorId>,
     pub token: Option<TokenId>,
     /// For ops that check the target at issue time (`ReactCommands::insert`, `despawn` trigger): whether the
-    /// entity existed then.
+    /// entity existed then. For body-time accessors: whether the accessor call triggered.
     pub issue_ok: bool,
+    /// Value returned by a body-time accessor (`set_if_neq`: the old value, -1 for `None`), if any.
+    pub value: Option<i16>,
 }
 
 /// Trace events.
